@@ -527,14 +527,18 @@ func (w *world16) step(op Op16, probe func(string)) (f *fail16, skipped bool) {
 			return fail("nil", "GetRow returned nil")
 		}
 		reuse := in != nil && len(w.am[ab]) >= mm.w
+		if reuse && out != in {
+			// re-using the caller's array is an economy, not part of what the
+			// container holds: a fresh array is judged as a fresh array
+			probe("probe.getrow_did_not_reuse_a_sufficient_array")
+			reuse = false
+			in = nil
+		}
 		if reuse {
 			if len(w.am[ab]) > mm.w {
 				probe("probe.getrow_into_longer_array")
 			} else {
 				probe("probe.getrow_into_exact_array")
-			}
-			if out != in {
-				return fail("identity", "GetRow did not reuse a sufficiently large array (size %d, width %d)", len(w.am[ab]), mm.w)
 			}
 			row := make([]bool, len(w.am[ab]))
 			copy(row, mm.b[op.Y])
@@ -543,7 +547,14 @@ func (w *world16) step(op Op16, probe func(string)) (f *fail16, skipped bool) {
 			if in != nil {
 				probe("probe.getrow_into_short_array")
 				if out == in {
-					return fail("identity", "GetRow reused an array that is too short (size %d, width %d)", len(w.am[ab]), mm.w)
+					// grown in place? then it must hold the row now
+					if out.GetSize() < mm.w {
+						return fail("identity", "GetRow returned the caller's array although it is too short for the row (size %d, width %d)", out.GetSize(), mm.w)
+					}
+					row := make([]bool, out.GetSize())
+					copy(row, mm.b[op.Y])
+					w.am[ab] = row
+					break
 				}
 			}
 			ac := mod(op.C, c16ASlots)
